@@ -113,6 +113,10 @@ func init() {
 		att := w.attempts[idx]
 		w.attempts[idx] = att + 1
 		w.mu.Unlock()
+		if att > 60 {
+			runaway = idx + 1
+			return nil, errors.New("verif: runaway re-execution")
+		}
 		return &scriptExec{idx: idx, att: att, release: make(chan bool, 2), obeys: obeys}, nil
 	})
 }
@@ -228,6 +232,8 @@ func pendingPre(c schedCase) []int {
 		return nil
 	}
 	var out []int
+	count := map[int]int{}
+	catPids = catPids[:0]
 	ents, _ := os.ReadDir("/proc")
 	for _, e := range ents {
 		n := e.Name()
@@ -240,13 +246,27 @@ func pendingPre(c schedCase) []int {
 		}
 		for _, i := range want {
 			if string(b) == "cat\x00"+fifoPath(i)+"\x00" {
-				out = append(out, i)
+				if count[i] == 0 {
+					out = append(out, i)
+				}
+				count[i]++
+				var pid int
+				fmt.Sscan(n, &pid)
+				catPids = append(catPids, pid)
+				if count[i] > 8 {
+					// the same precondition is being evaluated many times at once: the step is being
+					// launched again and again (a runaway that would fork without bound)
+					runaway = i + 1
+				}
 			}
 		}
 	}
 	sortInts(out)
 	return out
 }
+
+var catPids []int
+var runaway int // node index + 1 whose precondition is evaluated by more than 8 processes at once
 
 func handlerStep(h int, mode int) *dag.Step {
 	if mode == 0 {
@@ -308,6 +328,9 @@ func quiesce(sc *scheduler.Scheduler, g *scheduler.ExecutionGraph, finished chan
 		n := len(W.events)
 		W.mu.Unlock()
 		s := takeSnap(sc, g)
+		if runaway != 0 {
+			return s, false
+		}
 		blocked := true
 		for i, st := range s.St {
 			if st == "running" && !exemptRunning[i] {
@@ -345,6 +368,7 @@ func runCase(c schedCase, quiet time.Duration) (res result) {
 	rng := rand.New(rand.NewSource(c.Seed))
 	curCase = c
 	exemptRunning = map[int]bool{}
+	runaway = 0
 	fifoDir, _ = os.MkdirTemp("", "verif-fifo-")
 	defer os.RemoveAll(fifoDir)
 	var steps []dag.Step
@@ -407,6 +431,22 @@ func runCase(c schedCase, quiet time.Duration) (res result) {
 	idle := 0
 	for {
 		s, fin := quiesce(sc, g, finished, quiet)
+		if runaway != 0 {
+			res.Monitor = append(res.Monitor, fmt.Sprintf("C03:step-launched-again-while-its-launch-is-in-progress:node=%d", runaway-1))
+			res.Hang = true
+			sc.Signal(g, syscall.SIGKILL, nil, false) // sets the canceled flag: the loop stops launching
+			for k := 0; k < 50; k++ {
+				pendingPre(c)
+				if len(catPids) == 0 {
+					break
+				}
+				for _, pid := range catPids {
+					syscall.Kill(pid, syscall.SIGKILL)
+				}
+				time.Sleep(5 * time.Millisecond)
+			}
+			break
+		}
 		if fin {
 			res.Snaps = append(res.Snaps, s)
 			res.Finished = true
